@@ -1,6 +1,6 @@
-\* liveness under fairness: with one honest peer among faulty ones the node reaches the honest height
+\* liveness under fairness: quick: with one honest peer among two faulty ones the node reaches the honest height
 CONSTANTS HA = 2 HB = 0 ForkAt = 0 Start = 0 MaxIter = 0 WithCancel = FALSE
-  Peers = {"honest", "corrupt", "mute", "other"}
+  Peers = {"honest", "corrupt", "mute"}
   Verify = TRUE Retry = TRUE CheckedStore = TRUE CtxAwareSends = TRUE
   ClassOf <- MCIdentity EmptyA <- MCEmptyMix EmptyB <- MCNoEmpty
 SPECIFICATION LiveSpec
